@@ -16,6 +16,15 @@ from mako.pygen import adjust_whitespace
 _regexp_cache = {}
 
 
+def _normalize_encoding(label):
+    """return the canonical name of the codec a label refers to, so that
+    spellings such as ``UTF-8`` and ``utf8`` compare equal."""
+    try:
+        return codecs.lookup(label).name
+    except LookupError:
+        return label
+
+
 class Lexer:
     def __init__(
         self, text, filename=None, input_encoding=None, preprocessor=None
@@ -199,7 +208,7 @@ class Lexer:
             text = text[len(codecs.BOM_UTF8) :]
             parsed_encoding = "utf-8"
             m = self._coding_re.match(text.decode("utf-8", "ignore"))
-            if m is not None and m.group(1) != "utf-8":
+            if m is not None and _normalize_encoding(m.group(1)) != "utf-8":
                 raise exceptions.CompileException(
                     "Found utf-8 BOM in file, with conflicting "
                     "magic encoding comment of '%s'" % m.group(1),
